@@ -435,27 +435,35 @@ WATCHDOG_BUDGET = 15.0        # seconds a process may lose in watchdog hits; aft
 
 def with_timeout(seconds, fn, *a):
     """runs the real code under a watchdog: a change that makes it loop must show up as an answer, not as a hang.
-    One hit is enough evidence, so the time lost is bounded per process: a check of a hanging tree ends in minutes."""
+    One hit is enough evidence, so the time lost is bounded per process: a check of a hanging tree ends in minutes.
+    The watchdog counts the CPU time of the process (the real code computes, it does not wait), so a loaded machine
+    does not produce false hits; a hit counts even when the code under test swallows the exception."""
     import signal
     w = _WATCHDOG
     if w["spent"] >= WATCHDOG_BUDGET:
         raise RealCodeTimeout("not run: the real code hit the watchdog %d times before" % w["hits"])
     limit = seconds if w["hits"] < WATCHDOG_FULL_HITS else min(seconds, 0.2)
+    fired = []
 
     def on_alarm(signum, frame):
-        w["hits"] += 1
-        w["spent"] += limit
-        raise RealCodeTimeout("real code still running after %ss" % limit)
+        if not fired:
+            w["hits"] += 1
+            w["spent"] += limit
+        fired.append(1)
+        raise RealCodeTimeout("real code still running after %ss of CPU time" % limit)
     try:
-        old = signal.signal(signal.SIGALRM, on_alarm)
+        old = signal.signal(signal.SIGVTALRM, on_alarm)
     except ValueError:              # not in the main thread: no watchdog
         return fn(*a)
-    signal.setitimer(signal.ITIMER_REAL, limit)
+    signal.setitimer(signal.ITIMER_VIRTUAL, limit)
     try:
-        return fn(*a)
+        res = fn(*a)
     finally:
-        signal.setitimer(signal.ITIMER_REAL, 0)
-        signal.signal(signal.SIGALRM, old)
+        signal.setitimer(signal.ITIMER_VIRTUAL, 0)
+        signal.signal(signal.SIGVTALRM, old)
+    if fired:
+        raise RealCodeTimeout("real code still running after %ss of CPU time (the exception was swallowed)" % limit)
+    return res
 
 
 # ------------------------------------------------------------------ specification side
